@@ -1,11 +1,12 @@
 #!/bin/bash
-# verify + full quick-check matrix for every delivered seeded change that has none yet.
+# full quick-check matrix (live harness) for every seeded change under /verif/seeded that has none yet.
 # usage: seedbatch.sh <worker> <nworkers>
 W=${1:-0}; N=${2:-1}; i=0
-export SEED_MUT=/tmp/wt/mut$W
-for d in /tmp/wt/out/*/*/; do
+export SEED_MUT=/tmp/wt/mut$W SEED_LIVE=1
+for d in /verif/seeded/*-*/; do
   i=$((i+1)); [ $((i % N)) -eq $W ] || continue
   [ -f "$d/patch.diff" ] || continue
-  [ -f "$d/verify.json" ] || python3 /verif/tools/seedtest.py verify "$d" > "$d/verify.log" 2>&1
+  case "$d" in *REVERT*) ;; *) [ -f "$d/verify.json" ] || python3 /verif/tools/seedtest.py verify "$d" > "$d/verify.log" 2>&1 ;; esac
   [ -f "$d/matrix.json" ] || python3 /verif/tools/seedtest.py matrix "$d" > "$d/matrix.log" 2>&1
 done
+echo BATCH-DONE-$W
